@@ -11,6 +11,8 @@ import XalanModel.C05.TargetProofs
 import XalanModel.Generated.C05_Funnel
 import XalanModel.Generated.C05_Wiring
 import XalanModel.Generated.C05_Process
+import XalanModel.Generated.C05_CliOpts
+import XalanModel.Generated.C05_Liaison
 /-!
 # C05 — the result does not depend on how source, stylesheet and output are supplied
 
@@ -507,6 +509,24 @@ compiled stylesheet copy the same things from the stylesheet root into engine an
 one such initialisation. -/
 theorem process_overloads_same_initialisations :
     C05_Process.fromSource = C05_Process.compiled ∧ C05_Process.fromSource ≠ [] := by
+  decide
+
+/-! ## (iii-d) the command line hands every option to its setter; every source liaison keeps ignorable white space -/
+
+/-- `Params::setParams` of the command-line program calls `setUseValidation`, `setOmitMETATag`, `setEscapeURLs`,
+`setIndent` and `setStylesheetParam`; `-e` reaches the result target; and the guard in front of `setIndent` lets every
+amount the API accepts through — the boundary value 0 included (`Xalan -i 0` = `setIndent(0)`). -/
+theorem cli_options_reach_setters :
+    C05_CliOpts.settersCalled = [true, true, true, true, true] ∧ C05_CliOpts.encodingPassed = true ∧
+    (∀ v ∈ [0, 1, 2, 8], v ∈ C05_CliOpts.indentAccepted) := by
+  decide
+
+/-- Every class that builds a source document (native and Xerces-DOM parsed sources, the document builder, the
+per-transformation helpers) leaves `includeIgnorableWhitespace` at the liaisons' default, and that default is `true`:
+white space in element-only content (ignorable only to a validating parser) stays in the tree for every source form. -/
+theorem source_liaisons_keep_ignorable_whitespace :
+    C05_Liaison.defaultInclude = true ∧ 5 ≤ C05_Liaison.explicitSettings.length ∧
+    (∀ l ∈ C05_Liaison.explicitSettings, ∀ v ∈ l, v = 1) := by
   decide
 
 /-! ## (iii') the stylesheet named by the xml-stylesheet processing instruction -/
